@@ -457,6 +457,8 @@ def c07(m, h, i, s):
             cls = "sign_blind_partial" if ratio < 0 else "partial_underflow"
         elif bal(s.pre, 2) < max(equity, 0):
             cls = "stale_vault_balance"       # the vault holds less than the position's remaining margin
+        elif I(s.pre, "e.baddebt") != 0 and max(-equity, 0) + max(pen // 2 - max(equity, 0), 0) == I(s.pre, "e.baddebt"):
+            cls = "zero_fund_draw"            # bad debt to realise == prepaid amount: a Withdraw of zero is queued (fixed 40ca1a8)
         else:
             cls = "other"
         m.bad(h, i, cls, f"Liquidate failed although ratio {ratio} < maintenance {maint}, vAMM open/registered, fee {liqfee}, fund {bal(s.pre, 3)}")
@@ -626,7 +628,31 @@ def c11(m, h, i, s):
 
 
 # ------------------------------------------------------------------------------------------- C12
+def expected_fee_ratios(h, i):
+    """(toll, spread) per vAMM as instantiated (VAMM header line) and as changed by the successful vAMM UpdateConfig calls
+    of the history up to and including step i - independent of what the vAMM's config query reports"""
+    st = h.__dict__.setdefault("_fee_ratios", {"upto": -1, "r": {v: [d.get("toll"), d.get("spread")] for v, d in h.vamms.items()}})
+    if st["upto"] > i:
+        st = h.__dict__["_fee_ratios"] = {"upto": -1, "r": {v: [d.get("toll"), d.get("spread")] for v, d in h.vamms.items()}}
+    for j in range(st["upto"] + 1, i + 1):
+        sj = h.steps[j]
+        if sj.kind == "vamm" and sj.ok and sj.verb() == "updcfg" and int(sj.toks[2]) in st["r"]:
+            if sj.toks[6] not in ("-", "none"):
+                st["r"][int(sj.toks[2])][0] = int(sj.toks[6])
+            if sj.toks[7] not in ("-", "none"):
+                st["r"][int(sj.toks[2])][1] = int(sj.toks[7])
+    st["upto"] = i
+    return st["r"]
+
+
 def c12(m, h, i, s):
+    # the ratios the fees are computed from are the ones the vAMM was instantiated with / last set to
+    for v, (toll, spread) in expected_fee_ratios(h, i).items():
+        if toll is None or spread is None or s.obs.get(f"v{v}.toll") in (None, "err"):
+            continue
+        if I(s.obs, f"v{v}.toll") != toll or I(s.obs, f"v{v}.spread") != spread:
+            m.bad(h, i, "fee_ratio_not_as_configured",
+                  f"vAMM {v} charges toll {I(s.obs, f'v{v}.toll')} / spread {I(s.obs, f'v{v}.spread')}, configured {toll} / {spread}")
     if s.kind != "eng" or not s.ok:
         return
     verb = s.verb()
